@@ -343,3 +343,8 @@ Proof.
   split; [apply C19_sorted_tree_canonical; apply C19_example_hypotheses|].
   vm_compute. repeat split; reflexivity.
 Qed.
+
+(* the generated facts this property uses were lifted from the current source *)
+Theorem C19_generated_facts_present : GEN_FS_OK = true /\ GEN_CONST_OK = true.
+Proof. split; reflexivity. Qed.
+Print Assumptions C19_generated_facts_present.
